@@ -113,6 +113,9 @@ def call_origin(fn, t, depth, seen, maxdepth):
         inl = _inline_self_accessor(fn, res.get("id") or f.get("id"), args, depth)
         if inl is not None:
             return inl
+        inl = _inline_apply(fn, res.get("id") or f.get("id"), args, depth)
+        if inl is not None:
+            return inl
         return ("call", res.get("path") or f["path"], args, f.get("self_ty"), f.get("full"))
     return ("callind", origin(fn, t["func"], depth + 1, seen, maxdepth), args)
 
@@ -210,7 +213,78 @@ def rvalue_origin(fn, rv, depth, seen, maxdepth):
     return ("unknown", rv.get("dbg", k))
 
 
+_APPLY_TERMS = {}
+
+
+def subst_upvars(t, caps):
+    """replace ('upvar', i, name) leaves of a closure-body term by the captured operand terms of its creation site"""
+    if not isinstance(t, tuple):
+        return t
+    if t and t[0] == "upvar" and isinstance(t[1], int) and 0 <= t[1] < len(caps):
+        c = caps[t[1]]
+        return c
+    return tuple(subst_upvars(x, caps) if isinstance(x, tuple) else x for x in t)
+
+
+def _inline_apply(fn, callee_id, args, depth):
+    """`x.read_fn(|info| Ok((info.a, info.b)))`: a local function whose result is *the result of calling its closure parameter*
+    (an apply / with-lock combinator) handed a straight-line closure literal is read as the closure's returned expression, with
+    the closure's parameters bound to what the combinator passes and its captures to the captured operands.  So reading two
+    fields in one `read_fn` gives the same origin terms as two separate `read()`s."""
+    if not INLINE_ACCESSORS or callee_id is None or depth > 30:
+        return None
+    F = getattr(fn, "facts", None)
+    if F is None:
+        return None
+    g = F.fns.get(callee_id)
+    if g is None or not g.blocks or g.kind not in ("method", "fn") or g.j.get("trait") or g.id == fn.id or g.j["mir"]["argc"] != len(args):
+        return None
+    cl_args = [(i, a) for i, a in enumerate(args) if a[0] == "agg" and isinstance(a[1], str) and a[1].startswith("closure:")]
+    if len(cl_args) != 1:
+        return None
+    key = g.id
+    if key not in _APPLY_TERMS:
+        _APPLY_TERMS[key] = None
+        # the one non-cleanup call that writes the return place must be FnOnce/FnMut/Fn::call* on a parameter
+        rets = [b["term"] for b in g.blocks if not b.get("cleanup") and b["term"]["k"] == "call" and b["term"]["dest"]["l"] == 0 and not b["term"]["dest"].get("p")]
+        other = [s_ for b in g.blocks if not b.get("cleanup") for s_ in b["stmts"] if s_["k"] == "assign" and s_["lhs"]["l"] == 0]
+        if len(rets) == 1 and not other:
+            tf = rets[0]["func"].get("fn") or {}
+            if (tf.get("trait") or "") in ("std::ops::FnOnce", "std::ops::FnMut", "std::ops::Fn") and len(rets[0].get("args", [])) == 2:
+                with no_inlining():
+                    who = origin(g, rets[0]["args"][0], 0, None, 20)
+                    what = origin(g, rets[0]["args"][1], 0, None, 20)
+                while who[0] in ("ref", "deref", "cast"):
+                    who = who[1]
+                if who[0] == "param" and what[0] == "agg" and what[1] == "tuple":
+                    _APPLY_TERMS[key] = (who[1], what[2])
+    spec = _APPLY_TERMS[key]
+    if spec is None:
+        return None
+    k, passed = spec
+    if k - 1 != cl_args[0][0]:
+        return None
+    clo = cl_args[0][1]
+    cg = F.fns.get(clo[1][len("closure:"):])
+    if cg is None or not cg.blocks or len(cg.blocks) > 12:
+        return None
+    if not all(b["term"]["k"] in ("call", "goto", "return", "drop", "assert", "unreachable", "resume", "false_edge", "false_unwind") or b.get("cleanup") for b in cg.blocks):
+        return None
+    rv = origin(cg, {"l": 0, "k": "copy"}, 0, None, 30)
+    if rv[0] in ("unknown", "phi", "loop"):
+        return None
+    # closure parameters: _1 = the closure itself, _2.. = what the combinator passes (in the combinator's own terms, whose
+    # parameters are then bound to this call site's arguments)
+    passed_here = tuple(subst_params(x, args) for x in passed)
+    rv = subst_params(rv, (("self_closure",),) + passed_here)
+    return subst_upvars(rv, clo[2])
+
+
 def simplify(t):
+    # `x?` of a literally built Ok(v) (an inlined helper or closure result) -> v
+    if t[0] == "field" and t[2] == ".0" and t[1][0] == "field" and "Continue" in t[1][2] and t[1][1][0] == "call" \
+            and t[1][1][1].endswith("::branch") and t[1][1][2] and t[1][1][2][0][0] == "agg" and t[1][1][2][0][1].endswith("Result::Ok") and t[1][1][2][0][2]:
+        return t[1][1][2][0][2][0]
     # field of aggregate -> the operand
     if t[0] == "field" and t[1][0] == "agg":
         agg = t[1]
